@@ -405,7 +405,11 @@ def _classify(u, g: Grammar) -> Tuple[str, str]:
         if rn + "Segment" in d.library:
             cands.append(f'Ref("{rn}Segment")')
         if not cands:
-            cands.append(f"define {rn} in {mod} (e.g. as ObjectReferenceSegment subclass) or reference an existing segment")
+            return (
+                "ref-to-undefined-name",
+                f"{mod}:{u['line']}: Ref({rn!r}) names no library entry; define {rn} in {mod} "
+                f"(e.g. as an ObjectReferenceSegment subclass) or reference an existing segment",
+            )
         return ("ref-to-undefined-name", f"{mod}:{u['line']}: Ref({rn!r}) names no library entry; write {' or '.join(cands)}")
     kw_file = f"src/sqlfluff/dialects/dialect_{dl}_keywords.py"
     if defining and defining != dl:
